@@ -222,6 +222,7 @@ fn build_cases(tape: &[u8], which: Which, n_inputs_scale: usize) -> Vec<Result<G
         // these properties are about
         Which::C01 | Which::C04 | Which::C05 | Which::C07 | Which::C08 if t.chance(80) => gen::gen_cfg(&mut t).0,
         Which::C16 => gen::gen_recovery(&mut t),
+        Which::C17 if t.chance(70) => gen::gen_recovery(&mut t),
         _ => gen::gen_full(&mut t, &opts),
     };
     match which {
@@ -353,6 +354,31 @@ fn case_from_spec(
             }
             sents.sort();
             sents.dedup();
+            if core.error_term.is_some() {
+                // recovery grammars: sentences with 1-2 edits (so recovery runs and
+                // drops tokens) and a stream error right behind / near the edit
+                let mut extra = vec![];
+                for sn in sents.iter().take(30) {
+                    if sn.is_empty() {
+                        continue;
+                    }
+                    let mut m = sn.clone();
+                    let p = t.below(m.len() + 1);
+                    m.insert(p, usable[t.below(usable.len())]);
+                    if t.chance(100) {
+                        let q = t.below(m.len() + 1);
+                        m.insert(q, usable[t.below(usable.len())]);
+                    }
+                    let n = m.len();
+                    let toks = gen::extern_toks(&spec, &term_of_core, &m);
+                    for d in 0..3usize {
+                        let e = (p + 1 + d).min(n);
+                        extra.push((si, m.clone(), toks.clone(), None, Some(e)));
+                    }
+                    extra.push((si, m.clone(), toks.clone(), None, Some(t.below(n + 1))));
+                }
+                inputs.extend(extra);
+            }
             for inp in sents {
                 let n = inp.len();
                 let base = gen::extern_toks(&spec, &term_of_core, &inp);
@@ -1005,6 +1031,45 @@ fn evaluate_cases(
                 Which::C17 => {
                     // model timeline (A.6b): the first event among the stream
                     // error and the first failing action decides the result
+                    if let (false, Some(p)) = (m.member, err_at) {
+                        // the input is not a sentence (recovery grammars): the model
+                        // cannot predict the result, but the statement still decides
+                        // what may happen around the Err item at index p
+                        let (got_stream_err, pulls, is_ok) = match r {
+                            Resp::Ok { pulls, .. } => (false, *pulls, true),
+                            Resp::Err { variant, a, pulls, .. } => (variant == "User" && a == &format!("stream-error-at-{p}"), *pulls, false),
+                            _ => continue,
+                        };
+                        if count {
+                            ck.nontrivial(&(key.clone(), toks.iter().map(|t| t.idx).collect::<Vec<_>>(), *err_at));
+                            ck.class("c17_non_sentence_with_stream_error");
+                            if c.core.error_term.is_some() {
+                                ck.class("c17_recovery_grammar_with_stream_error");
+                            }
+                        }
+                        let pulled_err = pulls as usize > *p;
+                        let bad = if is_ok {
+                            // Ok is only possible if the parser never reached the Err item - impossible, it must see end of input
+                            Some("error-swallowed")
+                        } else if pulled_err && !got_stream_err {
+                            Some("error-swallowed")
+                        } else if pulls as usize > *p + 1 {
+                            Some("token-pulls")
+                        } else {
+                            None
+                        };
+                        if let Some(kind) = bad {
+                            fails[*gi].push(Fail {
+                                sig: format!("C17/{}/{}", kind, cfg_name(vi)),
+                                what: format!(
+                                    "{} parser pulled {} items from a stream whose item #{} is Err and returned {:?}; once the Err item is pulled the result must be exactly that error and nothing more may be read",
+                                    cfg_name(vi), pulls, p, r
+                                ),
+                                replay: mk_replay(vi, json!({"stream_error_at": p}), r),
+                            });
+                        }
+                        continue;
+                    }
                     if !m.member || m.ambiguous {
                         continue;
                     }
@@ -1487,7 +1552,18 @@ fn evaluate_cases(
                             let (mut x, mut y) = (log.clone(), mb_model.log.clone());
                             x.sort();
                             y.sort();
-                            let sig = if x == y && mb_model.distinct_inlined_hosts > 0 {
+                            // F10 only permutes whole inlined nonterminals against each
+                            // other: the actions of one nonterminal (id / 32) keep their
+                            // relative order. Anything else is a different root cause.
+                            let per_nt = |v: &[u32]| -> BTreeMap<u32, Vec<u32>> {
+                                let mut m: BTreeMap<u32, Vec<u32>> = BTreeMap::new();
+                                for id in v {
+                                    m.entry((id - 1) / 32).or_default().push(*id);
+                                }
+                                m
+                            };
+                            let same_nt_order_kept = per_nt(log) == per_nt(&mb_model.log);
+                            let sig = if x == y && same_nt_order_kept && mb_model.distinct_inlined_hosts > 0 {
                                 "C14/order/distinct-inlined-nonterminals".to_string()
                             } else {
                                 format!("C14/inlined-action-order/{cfgn}")
